@@ -351,6 +351,15 @@ def observe(s, q, aq, rng, missing, topks=(2, 3, 5)):
             obs.append({"kind": "filteredlen", "path": "len(search(filter=%s mask=%s limit=%d))" % (hasf, hasm, k),
                         "hasfilt": hasf, "hasmask": hasm, "filt": afilt, "mask": amask, "k": k,
                         "n": len(s.search(q, limit=k or None, **kw)), "n_unlimited": len(s.search(q, limit=None, **kw))})
+            # ... and collapsed on top of that: the best document of each key among those the filter / mask let through
+            cf = rng.choice(["tag", "num", "flag"])
+
+            def mkc():
+                r = s.search(q, limit=k or None, collapse=cf, collapse_limit=1, **kw)
+                return {"kind": "collapse", "path": "collapse=%s with filter=%s mask=%s k=%d" % (cf, hasf, hasm, k), "f": cf,
+                        "n": 1, "k": k, "sort": [], "order": [], "grev": False, "collapsed": -1, "len": len(r),
+                        "docs": [int(h.docnum) for h in r], "hasfilt": hasf, "hasmask": hasm, "filt": afilt, "mask": amask}
+            limited(mkc)
         guard("filtered", ff)
         # the limit bounds the hits whatever else the search computes, in either direction
         for rev, grouped in ((False, True), (True, False), (True, True)):
